@@ -175,6 +175,51 @@ func (c *Ctx) INT1(rule string) []report.Obligation {
 	}
 	out = append(out, verdict(keyed, rule, "recursiveInterpolate :: mapping keys are copied verbatim", c.P.Pos(f.Pos()),
 		"the mapping arm stores each interpolated value under the unchanged range key", "mapping keys are rewritten or dropped by interpolation"))
+	// where the path has a caster, what is returned is what that caster returns in this very call (not a value
+	// remembered from another path: the conversion depends on the path, not on the text alone)
+	castOK, nCast := true, 0
+	castWhy := ""
+	for _, g := range arms {
+		for _, cs := range callSites(g, func(com *ssa.CallCommon) bool {
+			cal := com.StaticCallee()
+			return cal != nil && c.P.InModule(cal) && cal.Signature.Results().Len() == 2 && isBoolType(cal.Signature.Results().At(1).Type()) &&
+				strings.Contains(c.P.TypeStr(cal.Signature.Results().At(0).Type()), "Cast")
+		}) {
+			var caster, found ssa.Value
+			for _, r := range *cs.(ssa.Value).Referrers() {
+				if ex, ok := r.(*ssa.Extract); ok {
+					if ex.Index == 0 {
+						caster = ex
+					} else {
+						found = ex
+					}
+				}
+			}
+			if caster == nil || found == nil {
+				continue
+			}
+			nCast++
+			for _, r := range returnsOf(g) {
+				if !isNilOrConst(retValue(r, 1)) {
+					continue
+				}
+				onOK := factHolds(r.Block(), func(cond ssa.Value, val bool) bool { return cond == found && val })
+				if !onOK {
+					continue
+				}
+				v := retValue(r, 0)
+				if ex, ok := v.(*ssa.Extract); ok {
+					v = ex.Tuple
+				}
+				call, ok := v.(*ssa.Call)
+				if !ok || call.Call.Value != caster {
+					castOK, castWhy = false, c.P.InstrPos(r)+": returns "+c.P.KeyTerm(retValue(r, 0), 3)
+				}
+			}
+		}
+	}
+	out = append(out, verdict(castOK && nCast > 0, rule, "recursiveInterpolate :: a typed attribute gets the result of its own caster", c.P.Pos(f.Pos()),
+		"on the caster-found edge every successful return yields the result of calling that caster", "a value for a typed attribute is returned that the caster of this path did not produce in this call ("+castWhy+"): conversions depend on the path, so a value remembered from another attribute has another type"))
 	// the default arm returns its input
 	def := false
 	for _, r := range returnsOf(f) {
@@ -319,9 +364,36 @@ func (c *Ctx) CODEC(rule string) []report.Obligation {
 		out = append(out, anchorViolation(rule, "types.(SSHKey).MarshalYAML / transform.transformSSH"))
 	} else {
 		var rendered []string
-		for _, f := range sprintfFormats(my) {
-			if m := twoVerbs.FindStringSubmatch(f); m != nil {
-				rendered = append(rendered, m[1])
+		// (the rendering may live in a helper of the package shared by the YAML and JSON marshallers, and may be a
+		// concatenation instead of a format)
+		renderers := []*ssa.Function{my}
+		for _, cs := range callSites(my, func(com *ssa.CallCommon) bool {
+			cal := com.StaticCallee()
+			return cal != nil && c.P.InModule(cal) && strings.HasPrefix(c.P.FuncID(cal), "types.") && cal != my
+		}) {
+			renderers = append(renderers, cs.Common().StaticCallee())
+		}
+		seenSep := map[string]bool{}
+		for _, rf := range renderers {
+			for _, f := range sprintfFormats(rf) {
+				if m := twoVerbs.FindStringSubmatch(f); m != nil && !seenSep[m[1]] {
+					seenSep[m[1]] = true
+					rendered = append(rendered, m[1])
+				}
+			}
+			for _, b := range rf.Blocks {
+				for _, in := range b.Instrs {
+					bo, ok := in.(*ssa.BinOp)
+					if !ok || bo.Op != token.ADD || !isStringType(bo.Type()) {
+						continue
+					}
+					for _, side := range []ssa.Value{bo.X, bo.Y} {
+						if sep, isC := prog.ConstString(side); isC && sep != "" && !seenSep[sep] {
+							seenSep[sep] = true
+							rendered = append(rendered, sep)
+						}
+					}
+				}
 			}
 		}
 		var cut []string
@@ -841,6 +913,7 @@ var RefLoops = []RefLoop{
 	{"dotenv.ReadFile", "dotenv", "every env file named by the caller"},
 	{"loader.loadYamlFile", "loader", "every configuration file of the project"},
 	{"loader.loadYamlModel", "loader", "every entry of an include section"},
+	{"gopkg.in/yaml.v3.NewDecoder", "loader", "every configuration file scanned for the project name"},
 }
 
 // naturalLoop returns the smallest natural loop (header, body) that contains block b.
@@ -1620,6 +1693,61 @@ func (c *Ctx) ESC(rule string) []report.Obligation {
 		}
 	}
 	out = append(out, report.Obligation{Rule: rule, Key: "inventory", Status: report.Discharged, Why: fmt.Sprintf("%d escape-decoding scans in package dotenv", n)})
+	// a double-quoted value is always interpolated: once the closing quote of a `"` value is found, every way out
+	// of the function passes through expandVariables (the text it is given is the decoded one, which can hold a
+	// `$` the raw text did not: an octal escape). A flag computed on the raw bytes cannot stand in for that.
+	for _, fn := range c.P.Funcs {
+		if !strings.HasPrefix(c.P.FuncID(fn), "dotenv.") {
+			continue
+		}
+		ev := c.callsTo(fn, "dotenv.expandVariables")
+		if len(ev) == 0 {
+			continue
+		}
+		fi := prog.Info(fn)
+		for _, b := range fn.Blocks {
+			iff, ok := b.Instrs[len(b.Instrs)-1].(*ssa.If)
+			if !ok {
+				continue
+			}
+			bo, ok := iff.Cond.(*ssa.BinOp)
+			if !ok || (bo.Op != token.EQL && bo.Op != token.NEQ) {
+				continue
+			}
+			k, isC := constInt(bo.Y)
+			if !isC {
+				k, isC = constInt(bo.X)
+			}
+			if !isC || k != '"' {
+				continue
+			}
+			// only the test made after the value was scanned (the scan loop itself compares bytes with the quote)
+			entry := b.Succs[0]
+			if bo.Op == token.NEQ {
+				entry = b.Succs[1]
+			}
+			if !fi.InLoop(b) && !fi.Reaches(fn.Blocks[0], b) {
+				continue
+			}
+			reachesCall := false
+			for _, cs := range ev {
+				if entry == cs.Block() || fi.Reaches(entry, cs.Block()) {
+					reachesCall = true
+				}
+			}
+			if !reachesCall {
+				continue // a comparison with the quote character that is not the double-quote arm
+			}
+			good := false
+			for _, cs := range ev {
+				if entry == cs.Block() || fi.PostDominates(cs.Block(), entry) {
+					good = true
+				}
+			}
+			out = append(out, verdict(good, rule, c.P.FuncID(fn)+" :: a double-quoted value is always interpolated", c.P.InstrPos(iff),
+				"expandVariables lies on every path out of the double-quote arm", "a path leaves the double-quote arm without interpolating the decoded value (a shortcut decided on the raw text): `\\0044{VAR}` decodes to `${VAR}` and must still be expanded"))
+		}
+	}
 	return out
 }
 
@@ -2985,4 +3113,239 @@ func (c *Ctx) BLANKSET(rule string) []report.Obligation {
 	}
 	return []report.Obligation{verdict(len(diffs) == 0, rule, "dotenv.isSpace :: blanks are TAB VT FF CR SPACE NEL NBSP", c.P.Pos(f.Pos()),
 		"the predicate compares its rune with exactly these seven constants", "the blank class of the env-file grammar changed: "+strings.Join(diffs, "; ")+": runes outside it become part of keys and values, runes inside it are trimmed")}
+}
+
+// FMTFLOAT (C04): a scalar of the document becomes the text of a KEY=VALUE entry in several places - the decoders
+// of the mapping types (fmt.Sprint) and the mergers that convert a mapping spelling into a list (%v). They agree
+// because they all use fmt's default formatting. strconv.FormatFloat agrees with it only as ('g', -1): with 'f' or
+// 'e', or a fixed precision, 0.00001 and 1e21 are spelled differently depending on whether a second file made the
+// merger run. Wherever packages override, types, transform and loader format a float that came out of an
+// interface value (a type assertion / type switch on a node of the document), it is with ('g', -1) - or with fmt.
+func (c *Ctx) FMTFLOAT(rule string) []report.Obligation {
+	var out []report.Obligation
+	n := 0
+	for _, fn := range c.P.Funcs {
+		id := c.P.FuncID(fn)
+		if !(strings.HasPrefix(id, "override.") || strings.HasPrefix(id, "types.") || strings.HasPrefix(id, "transform.") || strings.HasPrefix(id, "loader.")) {
+			continue
+		}
+		for _, cs := range callSites(fn, func(com *ssa.CallCommon) bool { return staticName(com) == "strconv.FormatFloat" }) {
+			args := cs.Common().Args
+			fromDoc := false
+			for _, u := range []ssa.Value{args[0]} {
+				v := u
+				for d := 0; d < 4 && v != nil; d++ {
+					switch x := v.(type) {
+					case *ssa.TypeAssert:
+						fromDoc = types.IsInterface(x.X.Type())
+						v = nil
+					case *ssa.Extract:
+						v = x.Tuple
+					case *ssa.Convert:
+						v = x.X
+					case *ssa.ChangeType:
+						v = x.X
+					default:
+						v = nil
+					}
+				}
+			}
+			if !fromDoc {
+				continue
+			}
+			n++
+			f, okF := constInt(args[1])
+			pr, okP := constInt(args[2])
+			good := okF && okP && f == 'g' && pr == -1
+			out = append(out, verdict(good, rule, id+" :: float of the document formatted like fmt does", c.P.InstrPos(cs),
+				"FormatFloat(v, 'g', -1, ...) is what %v prints", "a float taken from the document is formatted with another format or precision than fmt's default: the same value is spelled differently (1e-05 / 0.00001) depending on which code path turned it into text, so a merged KEY=VALUE entry differs from the unmerged one"))
+		}
+	}
+	out = append(out, report.Obligation{Rule: rule, Key: "inventory", Status: report.Discharged, Why: fmt.Sprintf("%d strconv.FormatFloat calls on document values in override / types / transform / loader", n)})
+	return out
+}
+
+// KEYWORD (C12): whether a value is a path to rewrite is decided on the value as a whole or on its elements
+// (equality, a prefix, the elements of a split list, the path predicates). A substring search for a word made
+// of letters (`strings.Contains(o, "bind")`) also matches inside another option's value (`addr=bind9.lan`), and a
+// device that is not a path at all is then joined with the project directory. In package paths no
+// Contains / Index / LastIndex looks for a constant that is a plain word; separators such as `://` are fine.
+func (c *Ctx) KEYWORD(rule string) []report.Obligation {
+	var out []report.Obligation
+	n := 0
+	for _, fn := range c.P.Funcs {
+		if !strings.HasPrefix(c.P.FuncID(fn), "paths.") {
+			continue
+		}
+		for _, cs := range callSites(fn, func(com *ssa.CallCommon) bool {
+			switch staticName(com) {
+			case "strings.Contains", "strings.Index", "strings.LastIndex", "strings.Count":
+				return true
+			}
+			return false
+		}) {
+			word, isC := prog.ConstString(cs.Common().Args[1])
+			if !isC {
+				continue
+			}
+			n++
+			plain := len(word) >= 2
+			for _, ch := range word {
+				if !(ch >= 'a' && ch <= 'z' || ch >= 'A' && ch <= 'Z') {
+					plain = false
+				}
+			}
+			out = append(out, verdict(!plain, rule, c.P.FuncID(fn)+" :: substring search for "+fmt.Sprintf("%q", word), c.P.InstrPos(cs),
+				"the text searched for is a separator, not a word", "a keyword is looked for as a substring: it also matches inside other words and option values, so a value that is not a path is rewritten (or one that is, is not)"))
+		}
+	}
+	out = append(out, report.Obligation{Rule: rule, Key: "inventory", Status: report.Discharged, Why: fmt.Sprintf("%d constant substring searches in package paths", n)})
+	return out
+}
+
+// SECKEEP (SEC-7, C20): the renderers blank the value of a secret / config that comes from the environment because
+// its `environment` attribute says so. The loader therefore never removes that attribute from a resource: no
+// delete(m, "environment") in package loader. (Dropping it once the value is resolved makes the config look like
+// one with literal content, and its value is printed.)
+func (c *Ctx) SECKEEP(rule string) []report.Obligation {
+	var out []report.Obligation
+	n := 0
+	for _, fn := range c.P.Funcs {
+		if !strings.HasPrefix(c.P.FuncID(fn), "loader.") {
+			continue
+		}
+		for _, cs := range callSites(fn, func(com *ssa.CallCommon) bool {
+			bi, ok := com.Value.(*ssa.Builtin)
+			return ok && bi.Name() == "delete"
+		}) {
+			if k, isC := prog.ConstString(cs.Common().Args[1]); isC && k == "environment" {
+				n++
+				out = append(out, bad(rule, c.P.FuncID(fn)+" :: `environment` removed from a resource", c.P.InstrPos(cs),
+					"the attribute that marks a secret / config as coming from the environment is deleted from the model: the renderers then treat its resolved value as literal content and print it"))
+			}
+		}
+	}
+	out = append(out, report.Obligation{Rule: rule, Key: "loader :: `environment` of a resource is never deleted", Status: report.Discharged, Why: fmt.Sprintf("%d deletions found", n)})
+	return out
+}
+
+// MERGEKEEP (C04): what a later file does not mention is preserved. A merger of package override that walks the
+// entries of the base list keeps each of them: in the loop over the base, no iteration reaches the next one
+// without appending the entry (or something built from it) to a slice. An entry that only survives when some
+// override happens to match it is lost when none does (ipam.config: the base subnets disappeared as soon as the
+// override named another one).
+func (c *Ctx) MERGEKEEP(rule string) []report.Obligation {
+	var out []report.Obligation
+	n := 0
+	for _, fn := range c.P.Funcs {
+		if !strings.HasPrefix(c.P.FuncID(fn), "override.") || fn.Signature.Params().Len() != 3 || fn.Signature.Results().Len() != 2 {
+			continue
+		}
+		if len(fn.Params) != 3 || !types.IsInterface(fn.Params[0].Type()) || !types.IsInterface(fn.Params[1].Type()) {
+			continue
+		}
+		// the base as a list: c.([]any)
+		var base ssa.Value
+		for _, b := range fn.Blocks {
+			for _, in := range b.Instrs {
+				if ta, ok := in.(*ssa.TypeAssert); ok && ta.X == ssa.Value(fn.Params[0]) {
+					if _, isSl := ta.AssertedType.Underlying().(*types.Slice); isSl {
+						base = ta
+						if ta.CommaOk {
+							for _, r := range *ta.Referrers() {
+								if ex, isE := r.(*ssa.Extract); isE && ex.Index == 0 {
+									base = ex
+								}
+							}
+						}
+					}
+				}
+			}
+		}
+		if base == nil {
+			continue
+		}
+		// the loop that reads its elements
+		for _, r := range *base.Referrers() {
+			ia, ok := r.(*ssa.IndexAddr)
+			if !ok {
+				continue
+			}
+			h, body := naturalLoop(fn, ia.Block())
+			if h == nil {
+				continue
+			}
+			var elem ssa.Value
+			for _, rr := range *ia.Referrers() {
+				if ld, isLd := rr.(*ssa.UnOp); isLd && ld.Op == token.MUL {
+					elem = ld
+				}
+			}
+			if elem == nil {
+				continue
+			}
+			n++
+			keepers := map[*ssa.BasicBlock]bool{}
+			for b := range body {
+				for _, in := range b.Instrs {
+					call, isCall := in.(*ssa.Call)
+					if !isCall {
+						continue
+					}
+					if bi, isB := call.Call.Value.(*ssa.Builtin); !isB || bi.Name() != "append" || len(call.Call.Args) != 2 {
+						continue
+					}
+					if c.sliceLiteralDerives(call.Call.Args[1], elem, 6) {
+						keepers[b] = true
+					}
+				}
+			}
+			// a way round the loop that passes no keeping block
+			seen := map[*ssa.BasicBlock]bool{}
+			var skip *ssa.BasicBlock
+			var dfs func(x *ssa.BasicBlock)
+			dfs = func(x *ssa.BasicBlock) {
+				if skip != nil || seen[x] || !body[x] || keepers[x] {
+					return
+				}
+				seen[x] = true
+				for _, sx := range x.Succs {
+					if sx == h {
+						skip = x
+						return
+					}
+					dfs(sx)
+				}
+			}
+			for _, sx := range h.Succs {
+				dfs(sx)
+			}
+			out = append(out, verdict(len(keepers) > 0 && skip == nil, rule, c.P.FuncID(fn)+" :: every entry of the base list is kept", c.P.InstrPos(ia),
+				"each iteration over the base appends the entry (or what is built from it) before the next one", "an iteration over the base list can end without the entry having been appended to the result: an entry that no override matches is dropped from the merged list"))
+		}
+	}
+	out = append(out, report.Obligation{Rule: rule, Key: "inventory", Status: report.Discharged, Why: fmt.Sprintf("%d mergers of package override walk the entries of their base list", n)})
+	return out
+}
+
+// sliceLiteralDerives: the variadic part of an append (a slice of a literal array) holds a value derived from src.
+func (c *Ctx) sliceLiteralDerives(v ssa.Value, src ssa.Value, depth int) bool {
+	sl, ok := v.(*ssa.Slice)
+	if !ok {
+		return c.derivedFrom(v, src, depth)
+	}
+	al, ok := sl.X.(*ssa.Alloc)
+	if !ok {
+		return c.derivedFrom(v, src, depth)
+	}
+	for _, r := range *al.Referrers() {
+		if ia, isIA := r.(*ssa.IndexAddr); isIA {
+			for _, rr := range *ia.Referrers() {
+				if st, isSt := rr.(*ssa.Store); isSt && st.Addr == ssa.Value(ia) && c.derivedFrom(st.Val, src, depth) {
+					return true
+				}
+			}
+		}
+	}
+	return false
 }
